@@ -112,6 +112,22 @@ def all_exhaustive():
             if L <= 3:
                 yield "exh", prog([v, b"\x04"], [128, 129])  # NUM2BIN(4) then BIN2NUM
                 yield "exh", prog([b"\x01", v], [147])  # ADD with a non-minimal operand
+    # index / position / size / shift-count operands at every power of two up to 2^72 and its neighbours, both signs, minimal and with one
+    # padding byte: an operand that is out of range fails - it is never folded, masked or truncated into a small one
+    for e_ in range(0, 73):
+        for base_ in (2**e_ - 1, 2**e_, 2**e_ + 1):
+            for sg in (1, -1):
+                nv = interp.enc(sg * base_)
+                for nb in (nv, (nv[:-1] + bytes([nv[-1] & 0x7F, 0x80 if sg < 0 else 0x00])) if nv else b"\x00"):
+                    if e_ < 4 and nb == nv:
+                        continue  # small minimal operands are covered by the grids above
+                    yield "exh", prog([MARK[0], MARK[1], nb], [121])  # PICK
+                    yield "exh", prog([MARK[0], MARK[1], nb], [122])  # ROLL
+                    yield "exh", prog([MARK[0], b"abcdef", nb], [127])  # SPLIT
+                    if e_ > 10:
+                        yield "exh", prog([MARK[0], b"\x05", nb], [128])  # NUM2BIN
+                        yield "exh", prog([MARK[0], b"\x05\x06", nb], [152])  # LSHIFT
+                        yield "exh", prog([MARK[0], b"\x05\x06", nb], [153])  # RSHIFT
     # truthiness of LONG elements (64..81 bytes): all zero, negative zero, and exactly one non-zero byte at every position
     for L in (64, 65, 66, 70, 72, 73, 80, 81):
         shapes = [bytes(L), bytes(L - 1) + b"\x80"]
